@@ -81,7 +81,22 @@ def _open_triggers():
 def cases(draw, tier):
     ex = _exclusions()
     max_depth = 3
-    if draw(st.integers(0, 2)):
+    chol_upper = draw(st.integers(0, 11)) == 0
+    if chol_upper:
+        # Head-only CholLinearOperator(R, upper=True): its solve is documented (and correct) as (R^T R)^{-1} B by triangular
+        # solves with the factor, whatever class the factor has.  (Nested, and on the iterative paths, the upper
+        # orientation runs into F-C01-chol-upper, which is why "Chol.upper" is excluded from the generic generator.)
+        cfg = gen.Cfg(dt=draw(st.sampled_from(["f64", "f64", "f32"])), max_dim=6, exclude=tuple(x for x in ex if x != "Chol.upper"))
+        n_ = draw(st.integers(1, 6))
+        batch_ = draw(st.sampled_from(gen.BATCHES))
+        structured = [h for h in ("BlockDiag", "BlockInterleaved", "Kronecker", "BatchRepeat", "ConstantMul") if h in gen._applicable(cfg, "triu+", n_, n_, batch_, 2)]
+        if structured and draw(st.booleans()):
+            # a structured (block / Kronecker / repeated / scaled) upper-triangular factor: the classes that override _cholesky_solve
+            fac = {"op": "Tri", "base": gen.call_maker(draw(st.sampled_from(structured)), draw, cfg, "triu+", n_, n_, batch_, 2), "upper": True}
+        else:
+            fac = gen.gen_tri_instance(draw, cfg, n_, batch_, True, True, 3)
+        r = {"op": "Chol", "base": fac, "upper": True}
+    elif draw(st.integers(0, 2)):
         r = draw(gen.head_first_recipes("pd", max_depth=max_depth, exclude=ex, max_dim=6))
     else:
         r = draw(gen.recipes("pd", max_depth=max_depth, exclude=ex, max_dim=6))
@@ -91,6 +106,8 @@ def cases(draw, tier):
     kind, rhs = draw(gen.rhs_for(shape, dt, allow_vector=True))
     entry = draw(st.sampled_from(["solve", "solve", "solve", "torch.linalg.solve", "free"]))
     case = {"recipe": r, "rhs": rhs, "rhs_kind": kind, "entry": entry, "cell": draw(st.sampled_from(CELLS))}
+    if chol_upper:
+        case["cell"] = {}
     if "lanczos_structured_solve" in _open_triggers() and TRIGGERS["lanczos_structured_solve"](case):
         case["cell"] = {k: v for k, v in case["cell"].items() if k != "max_cholesky_size"}
     if draw(st.integers(0, 3)) == 0 and entry in ("solve", "free") and kind != "vector":
